@@ -1,0 +1,99 @@
+//go:build verif
+
+// Contracts for the deductive verifier in /verif (govc). Only compiled with -tags verif.
+
+package daemon
+
+// ---- ghost vocabulary -------------------------------------------------------------
+
+//@ ghost accessOK(iface, ref, ref, ref, ref) bool
+//@ ghost polkitAuthorized(int, int, str) bool
+
+// ---- assumed contracts (T5) --------------------------------------------------------
+
+//@ func (daemon.errorResponder)
+//@   trusted
+//@   assigns nothing
+//@   ensures result != nil
+
+//@ func (daemon.accessChecker).CheckAccess
+//@   trusted
+//@   assigns http.Request.RemoteAddr
+//@   ensures (result == nil) == accessOK(recv, d, r, ucred, user)
+
+// ---- error responders really return an error ------------------------------------------
+
+//@ func makeErrorResponder$1
+//@   props C26
+//@   ensures result != nil
+
+//@ func AuthCancelled
+//@   props C26
+//@   ensures result != nil
+
+// ---- peer credentials -------------------------------------------------------------------
+
+//@ func ucrednetGetWithInterfacesImpl
+//@   props C26
+//@   ensures err != nil ==> ucred == nil
+//@   ensures err == nil ==> ucred != nil && ucred.Pid != ucrednetNoProcess && ucred.Uid != ucrednetNobody
+
+//@ func ucrednetGetImpl
+//@   props C26
+//@   ensures result1 != nil ==> result0 == nil
+//@   ensures result1 == nil ==> result0 != nil && result0.Pid != ucrednetNoProcess && result0.Uid != ucrednetNobody
+
+// ---- access checkers: the decision table ---------------------------------------------------
+
+//@ define onSnapdSocket(ucred *ucrednet) = ucred != nil && ucred.Socket == dirs.SnapdSocket
+//@ define onSnapSocket(ucred *ucrednet) = ucred != nil && ucred.Socket == dirs.SnapSocket
+
+//@ func requireSnapdSocket
+//@   props C26
+//@   ensures (result == nil) == old(onSnapdSocket(ucred))
+
+//@ func (openAccess).CheckAccess
+//@   props C26
+//@   ensures (result == nil) == old(onSnapdSocket(ucred))
+
+//@ func (rootAccess).CheckAccess
+//@   props C26
+//@   ensures (result == nil) == old(onSnapdSocket(ucred) && ucred.Uid == 0)
+
+//@ func (snapAccess).CheckAccess
+//@   props C26
+//@   ensures (result == nil) == old(onSnapSocket(ucred))
+
+//@ func checkPolkitActionImpl
+//@   props C26
+//@   ensures result == nil ==> old(polkitAuthorized(ucred.Pid, ucred.Uid, action))
+
+//@ func (authenticatedAccess).CheckAccess
+//@   props C26
+//@   ensures result == nil ==> old(onSnapdSocket(ucred))
+//@   ensures result == nil ==> user != nil || old(ucred.Uid == 0 || (ac.Polkit != "" && polkitAuthorized(ucred.Pid, ucred.Uid, ac.Polkit)))
+//@   ensures old(onSnapdSocket(ucred) && (user != nil || ucred.Uid == 0)) ==> result == nil
+
+//@ func (interfaceOpenAccess).CheckAccess
+//@   props C26
+//@   ensures result == nil ==> old(onSnapdSocket(ucred) || onSnapSocket(ucred))
+
+//@ func (interfaceAuthenticatedAccess).CheckAccess
+//@   props C26
+//@   ensures result == nil ==> old(onSnapdSocket(ucred) || onSnapSocket(ucred))
+//@   ensures result == nil ==> user != nil || old(ucred.Uid == 0 || (ac.Polkit != "" && polkitAuthorized(ucred.Pid, ucred.Uid, ac.Polkit)))
+
+//@ func requireInterfaceApiAccessImpl
+//@   props C26
+//@   assigns http.Request.RemoteAddr
+//@   ensures result == nil ==> old(onSnapdSocket(ucred) || onSnapSocket(ucred))
+//@   ensures result == nil && !old(onSnapdSocket(ucred)) ==> final(foundMatchingInterface)
+
+// ---- the dispatcher: a handler runs only after its access check passed ----------------------
+
+//@ func (*Command).ServeHTTP
+//@   props C26
+//@   requires c != nil && r != nil
+//@   guard call ResponseFunc: accessOK(access, c.d, r, ucred, user)
+//@   guard call ResponseFunc: err == nil || err == errNoID
+//@   guard call ResponseFunc: (r.Method == "GET" ==> access == c.ReadAccess && recv == c.GET) && (r.Method == "PUT" ==> access == c.WriteAccess && recv == c.PUT) && (r.Method == "POST" ==> access == c.WriteAccess && recv == c.POST) && (r.Method == "GET" || r.Method == "PUT" || r.Method == "POST")
